@@ -19,13 +19,13 @@ from . import common, pipeline as P
 H1 = gen.schema(
     handler='hs',
     types=[gen.stype('tc', [gen.key('kd', handler='hk')]),
-           gen.stype('ta', [gen.key('kc', 'integer', handler='hc'),
-                            gen.multisection('tc', '*', attr='cs', handler='hm'),
+           gen.stype('ta', [gen.multisection('tc', '*', attr='cs', handler='hm'),
+                            gen.key('kc', 'integer', handler='hc'),
                             gen.key('ke')]),
            gen.stype('td', [], extends='ta')],
     items=[gen.key('ka', handler='ha', default='d'),
-           gen.multikey('kb', handler='hb'),
            gen.multisection('ta', '+', attr='ms', handler='he'),
+           gen.multikey('kb', handler='hb'),
            gen.section('td', '*', attr='sa', handler='hd'),
            gen.key('kz')])
 H2 = gen.schema(
@@ -162,6 +162,9 @@ class C16(P.TextMixin, Harness):
                 # an extra (superfluous / duplicate) symbolic entry on top of a complete map
                 us.append({'schema': sid, 'text': ti, 'files': [['main.conf', t]], 'sym': [],
                            'none': [], 'extra': True})
+                # two superfluous symbolic entries (names no entry uses may still collide), one None
+                us.append({'schema': sid, 'text': ti, 'files': [['main.conf', t]], 'sym': [],
+                           'none': ['extra'], 'extra': 2})
         return us
 
     def inputs(self, eng, unit):
@@ -170,6 +173,8 @@ class C16(P.TextMixin, Harness):
             inp['m%d' % j] = self.sym_str(eng, 'm%d' % j, len(NAMES[unit['schema']][a]), bk_pred)
         if unit['extra']:
             inp['mx'] = self.sym_str(eng, 'mx', 2, bk_pred)
+        if unit['extra'] == 2:
+            inp['my'] = self.sym_str(eng, 'my', 2, bk_pred)
         return inp
 
     def map_names(self, unit, inp):
@@ -180,6 +185,8 @@ class C16(P.TextMixin, Harness):
         pairs = [(k, n) for k, n in zip(keys, names)]      # (supplied name, which callable)
         if unit['extra']:
             pairs.append((inp['mx'], 'extra'))
+        if unit['extra'] == 2:
+            pairs.append((inp['my'], 'extra2'))
         return pairs
 
     def observe(self, unit, inp):
